@@ -146,6 +146,18 @@ class StubGP:
         return means[:, dim_index][None, :] + self.rng.normal(size=(sample_count, len(sd))) * sd[None, :]
 
 
+class FixedBoxStub(StubGP):
+    """displayed boxes are prescribed exactly: centre_i, half_i (constant over rounds) — for directed witnesses."""
+
+    def __init__(self, X, mu, rng, centres, halves, **kw):
+        super().__init__(X, mu, rng, shape="rect", mode="random", **kw)
+        self.centres = np.asarray(centres, float)
+        self.halves = np.asarray(halves, float)
+
+    def _state(self, i):
+        return self.halves[i], self.centres[i] - self.mu[i]
+
+
 class ControlledProblem:
     """Observation source for the bandit algorithms: the running mean of each design follows
     mu_i + o_i(t) with |o_i(t)| <= frac * (radius the algorithm will display this round)."""
